@@ -140,6 +140,23 @@ CHECKS = {
              "is covered by the correspondence (threads defined in random orders), not by a theorem",
         technique="Lean 4 guard/merge theorems over transcriptions of the mark API and mark.c + differential runs of libovni and ovniemu",
         design="DESIGN.md §5 C17"),
+    "C20": dict(
+        text=("Theorems (Props/C20.lean, 17): sort_replace = insertSorted . erase under its preconditions, hence sorted and an exact "
+              "multiset update (sort_replace_spec, sort_replace_sorted_multiset); after every history of input changes the sort "
+              "rows are non-decreasing and a permutation of the inputs (rows_are_sorted_values, for any qsort that returns a sorted "
+              "permutation, any n); an output is written iff its value changes, in increasing index order (minimal_writes, "
+              "writes_increasing, no_change_no_write); the breakdown value fed to the sort equals spec(subsystem, task type, idle) "
+              "whenever mux0's selection is fresh, with the freshness side condition explicit and the only two stale classes "
+              "characterised (breakdown_value, fresh_after_ss, fresh_preserved_iff, stale_select_classes); per-CPU dirty-order "
+              "theorem dirty_level_ordered_partial (global registration order not modelled: OPEN); system_rows: rows = "
+              "sorted(per-CPU values). Tie: the real sort.c and the real nosv/nanos6 breakdown.c (connect_cpu, select_tr, "
+              "select_idle) in an ASan/UBSan harness, bounded-exhaustive + random, vs the Lean model and a property oracle; "
+              "`ovniemu -b -l` on random nOS-V/Nanos6 traces vs an oracle recomputed from cpu.prv and vs the model. Four "
+              "known findings (stale mux0 selection), see KNOWN_FINDINGS.txt."),
+        note=TB + "; qsort assumed to return a sorted permutation; the CPU-channel dirty order is a hypothesis checked by the "
+             "correspondence; the projection of the global walk onto one CPU is checked at run time, not proved",
+        technique="Lean 4 refinement/invariant theorems over sort.c and the breakdown muxes + differential runs (C harness, ovniemu -b)",
+        design="DESIGN.md §5 C20"),
 }
 
 NOT_YET = "check not built yet in this round (model and correspondence in progress; see DESIGN.md §5)"
